@@ -51,6 +51,7 @@ import (
 
 	"github.com/alpacahq/marketstore/v4/executor"
 	"github.com/alpacahq/marketstore/v4/executor/wal"
+	"github.com/alpacahq/marketstore/v4/frontend"
 	"github.com/alpacahq/marketstore/v4/utils/io"
 	"github.com/alpacahq/marketstore/v4/verif/internal/gen"
 	"github.com/alpacahq/marketstore/v4/verif/internal/ms"
@@ -728,6 +729,15 @@ func c28newBucket(r *gen.R, n int, nameBytes func(i int) int, ncols int, variabl
 	return b
 }
 
+// destroy removes a bucket through the real Destroy handler.
+func (e *c28env) destroy(key string) bool {
+	var resp frontend.MultiServerResponse
+	p := ms.Recover(func() {
+		e.inst.DS.Destroy(nil, &frontend.MultiKeyRequest{Requests: []frontend.KeyRequest{{Key: key}}}, &resp)
+	})
+	return p == "" && len(resp.Responses) > 0 && resp.Responses[0].Error == ""
+}
+
 // ---- stratum real: ordinary writes, every trigger avoided
 func (e *c28env) runReal(r *gen.R) {
 	var pool []*c28bucket
@@ -739,10 +749,27 @@ func (e *c28env) runReal(r *gen.R) {
 		if r.P(1, 4) {
 			nb = r.Range(2, 4) // several buckets in one WriteCSM => several files in one group
 		}
+		// now and then a bucket is destroyed and written again under the same key with other columns
+		// (and possibly the other record type): the group must carry the schema of the new write
+		var reborn *c28bucket
+		if len(pool) > 0 && r.P(1, 5) {
+			pi := r.Intn(len(pool))
+			old := pool[pi]
+			if old.cat == "" && e.destroy(old.item) {
+				ncols := r.Intn(9)
+				reborn = c28newBucket(r, 0, func(int) int { return 0 }, ncols, variable, old.tf)
+				reborn.item = old.item
+				pool[pi] = reborn
+				e.res.Count("buckets_destroyed_and_written_again", 1)
+			}
+		}
 		for k := 0; k < nb; k++ {
 			var b *c28bucket
+			if k == 0 && reborn != nil {
+				b = reborn
+			}
 			// rewrite an existing bucket of the same record type?
-			if len(pool) > 0 && r.P(1, 3) {
+			if b == nil && len(pool) > 0 && r.P(1, 3) {
 				cand := pool[r.Intn(len(pool))]
 				dup := false
 				for _, w := range ws {
